@@ -24,7 +24,7 @@ type gen struct {
 	batchMax   int
 }
 
-var allLeafKinds = []string{"base", "base", "plain", "retry", "fb", "retryfb", "func", "func", "func", "zst", "ovr"}
+var allLeafKinds = []string{"base", "base", "plain", "retry", "fb", "retryfb", "func", "func", "func", "zst", "ovr", "val"}
 var payKinds = []string{"int", "str", "float", "map", "slice", "ptr", "struct", "nil", "nilptr", "nilmap", "nilslice", "errpay"}
 var failKinds = []string{"sentinel", "wrapped", "custom", "wrapcustom", "ctxerr"}
 var actionAlphabet = []string{"default", "", "a", "ab", "b", "Default"} // "Default" differs from the default action by case only
@@ -587,6 +587,13 @@ func genC01base(prop, tier string, r *rand.Rand) *Scn {
 			n := g.leaf(1 + r.IntN(3))
 			g.sc.Root = n.ID
 			g.sc.Runs = len(n.Visits)
+			if len(n.Visits) >= 2 && hasPhase(n, 1) && r.IntN(5) == 0 {
+				// re-entrancy on one goroutine: an exec attempt of the first run runs
+				// the same node object again (the second visit) and then carries on -
+				// what a run hands from phase to phase belongs to that run
+				n.Visits[0].Exec[r.IntN(len(n.Visits[0].Exec))].Nested = n.ID + 1
+				g.sc.Runs = len(n.Visits) - 1
+			}
 		} else {
 			g.sc.Root = g.tree(1+r.IntN(4), 1+r.IntN(2), 0)
 			g.sc.Runs = 1 + r.IntN(2)
